@@ -11,6 +11,7 @@ CLS = "matid/classification/classifier.py"
 CLF = "matid/classification/classifications.py"
 PFD = "matid/core/periodicfinder.py"
 TAB = "matid/data/symmetry_data.py"
+LUN = "matid/core/linkedunits.py"
 
 VARIANTS = []
 
@@ -19,6 +20,36 @@ def V(pid, name, expect, *edits, tier="quick", mentions=None):
     VARIANTS.append(dict(pid=pid, name=name, expect=expect, edits=[tuple(e) for e in edits], tier=tier, mentions=mentions))
 
 
+# ------------------------------------------------------------------------------------------ C03
+V("C03", "merge when the overlap is below the threshold", "R03.3", (SBC, "if best_overlap_score > merge_threshold:", "if best_overlap_score < merge_threshold:"))
+V("C03", "merge without consulting the threshold", "R03.3", (SBC, "if best_overlap_score > merge_threshold:", "if best_overlap > 0:"))
+V("C03", "raw shared-atom count compared with the threshold", "R03.3", (SBC, "if best_overlap_score > merge_threshold:", "if best_overlap > merge_threshold:"))
+V("C03", "twin: threshold on the left", "silent", (SBC, "if best_overlap_score > merge_threshold:", "if merge_threshold < best_overlap_score:"))
+V("C03", "smaller cluster dictates the species", "R03.3", (SBC, "            if len(a.indices) > len(b.indices):\n                target = a\n                source = b\n            else:\n                target = b\n                source = a",
+   "            if len(a.indices) > len(b.indices):\n                target = b\n                source = a\n            else:\n                target = a\n                source = b"))
+V("C03", "substituted atoms become members", "R03.2", (LUN, "                for index in unit.basis_indices:\n                    if index is not None:\n                        indices.add(index)",
+   "                for index in unit.basis_indices:\n                    if index is not None:\n                        indices.add(index)\n                for sub in unit.substitutions:\n                    if sub is not None:\n                        indices.add(sub.index)"))
+V("C03", "None placeholders kept", "R03.2", (LUN, "                    if index is not None:\n                        indices.add(index)", "                    indices.add(index)"))
+V("C03", "least-surrounded cluster keeps the shared atom", "R03.5", (SBC, "                    if n_near > max_near:", "                    if n_near < max_near:"))
+V("C03", "neighbourhood beyond the radius", "R03.5", (SBC, "distances.dist_matrix_radii_mic[i, :] < merge_radius", "distances.dist_matrix_radii_mic[i, :] > merge_radius"))
+V("C03", "neighbourhood from raw distances", "R03.5", (SBC, "distances.dist_matrix_radii_mic[i, :] < merge_radius", "distances.dist_matrix_mic[i, :] < merge_radius"))
+V("C03", "merge without species filter", "R03.4", (SBC, "final_indices = set(target.indices).union(common)", "final_indices = set(target.indices).union(source.indices)"))
+V("C03", "species-blind matching", "R03.1", (GEO, "                if closest_atomic_number == atomic_number:\n                    match = closest_index\n                    substitution = None\n                else:\n", "                match = closest_index\n                if closest_atomic_number != atomic_number:\n"))
+V("C03", "twin: >= in the running maximum", "silent", (SBC, "                    if n_near > max_near:", "                    if n_near >= max_near:"))
+# ------------------------------------------------------------------------------------------ C04
+V("C04", "3D builder averages the wrapped copies without unwrapping", "R04.3", (PFD, "                final_pos = scaled_pos - displacement\n", "                final_pos = scaled_pos\n"))
+V("C04", "2D builder averages without unwrapping", "R04.3", (PFD, "                scaled_pos[:, 0:2] = final_pos_2d\n", "                scaled_pos[:, 0:2] = scaled_pos_2d\n"))
+V("C04", "element appended outside the occurrence filter", "R04.3", (PFD, "                group_avg = np.mean(final_pos, axis=0)\n                averaged_rel_pos.append(group_avg)\n                averaged_rel_num.append(group_num)\n", "                group_avg = np.mean(final_pos, axis=0)\n                averaged_rel_pos.append(group_avg)\n            averaged_rel_num.append(group_num)\n"))
+V("C04", "mean over the coordinates instead of the copies", "R04.3", (PFD, "group_avg = np.mean(final_pos, axis=0)", "group_avg = np.mean(final_pos, axis=1)"))
+V("C04", "twin: median of the unwrapped copies", "silent", (PFD, "group_avg = np.mean(final_pos, axis=0)", "group_avg = np.median(final_pos, axis=0)"))
+V("C04", "get_cell hands out the analysed system's cell", "R04.1", (CLU, "            return self._region.cell\n", "            return self._system\n"))
+V("C04", "region tracked with a copy stripped of its pbc", "R04.1", (PFD, "                seed_index,\n                proto_cell,\n                offset,\n                periodic_indices,", "                seed_index,\n                system,\n                offset,\n                periodic_indices,"))
+V("C04", "region 2D flag from the wrong value", "R04.1", (PFD, "                dim == 2,\n", "                dim == 3,\n"))
+V("C04", "reduced cell keeps full periodicity", "R04.4", (PFD, "proto_cell.set_pbc([True, True, False])", "proto_cell.set_pbc([True, True, True])"))
+V("C04", "reduction drops the thickest direction", "R04.4", (PFD, "reduced_dimension = np.argmin(thicknesses)", "reduced_dimension = np.argmax(thicknesses)"))
+V("C04", "reduced cell minimised along the wrong axis", "R04.4", (PFD, "                    proto_cell = matid.geometry.get_minimized_cell(\n                        proto_cell, 2, 2 * self.pos_tol\n                    )", "                    proto_cell = matid.geometry.get_minimized_cell(\n                        proto_cell, 0, 2 * self.pos_tol\n                    )"))
+V("C04", "minimised cell discarded", "R04.4", (PFD, "                    proto_cell = matid.geometry.get_minimized_cell(\n                        proto_cell, 2, 2 * self.pos_tol\n                    )", "                    matid.geometry.get_minimized_cell(\n                        proto_cell, 2, 2 * self.pos_tol\n                    )"))
+V("C04", "id without the 2D flag", "R04.6", (SYM, "        if self.n_pbc == 2:\n", "        if self.n_pbc == 5:\n"))
 # ------------------------------------------------------------------------------------------ C01
 V("C01", "alias instead of copy", "R01.1", (SBC, "system_copy = system.copy()", "system_copy = system"))
 V("C01", "wrap the argument", "R01.1", (SBC, "        # Positions are wrapped\n        system_copy.wrap()",
